@@ -23,28 +23,29 @@ Ported from the standard library (Go 1.26 `bufio`, `io`), for the calls `Load` m
   bytes makes it return `(0, nil)`;
 * `io.ReadFull` calls `Read` until the slice is full or an error comes back.
 -/
-namespace Bclv
+namespace Bclv.Buf
+open Bclv
 
 def rdCap : Nat := 4096
 def maxEmptyReads : Nat := 100
 
 /-- State of the buffered reader: the unread part of the buffer and what the underlying
 reader has yet to deliver. -/
-structure Rd where
+structure BufRd where
   buf : Bytes
   src : List Bytes
   deriving Repr
 
 /-- Everything still to be read. -/
-def Rd.rest (rd : Rd) : Bytes := rd.buf ++ rd.src.flatten
+def BufRd.rest (rd : BufRd) : Bytes := rd.buf ++ rd.src.flatten
 
 inductive RDec (α : Type) where
-  | ok (a : α) (rd : Rd)
+  | ok (a : α) (rd : BufRd)
   | fail (msg : String)
   | panic
   deriving Repr
 
-abbrev R (α : Type) := Rd → RDec α
+abbrev R (α : Type) := BufRd → RDec α
 
 def R.pure {α} (a : α) : R α := fun rd => .ok a rd
 def R.bind {α β} (r : R α) (f : α → R β) : R β := fun rd =>
@@ -177,4 +178,4 @@ def loadR (chunks : List Bytes) : LoadRes :=
   | .fail m => .err m
   | .panic => .panic
 
-end Bclv
+end Bclv.Buf
